@@ -37,10 +37,18 @@ package kernel
 
 // The result is the member list of the LAST cached sequence whose timestamp is below the threshold (ListIdx determines i uniquely),
 // or empty when there is none. Stated existentially (a universally quantified "forall i :: ListIdx(i) ==> ..." assumption makes a matching loop).
+// LastBelow(seqs, ts, n): the index of the last sequence among seqs[0..n) whose timestamp is below ts, -1 if there is none -- the index
+// ListIdx determines, as a FUNCTION (so that "the list at ts", "the threshold at ts" are terms, not existentials).
+//@ rec LastBelow(seqs []*NodeStateSequence, ts uint64, n int) mathint = n <= 0 ? 0 - 1 : (seqs[n - 1].Timestamp < ts ? n - 1 : LastBelow(seqs, ts, n - 1))
+//@ reclimit LastBelow
+//@ spec ListAtIdx(node *Node, ts uint64) mathint = LastBelow(node.nodeStateSequences, ts, len(node.nodeStateSequences))
 //@ func (node *Node) NodesListWithoutState
 //@   property C10, C29
 //@   requires NodeRep(node)
 //@   modifies nothing
+//@   ensures [idx] let j == LastBelow(SeqsOf(node, acceptedOnly), threshold, len(SeqsOf(node, acceptedOnly))) in
+//@       (j < 0 ==> len(result) == 0) && (j >= 0 ==> j < len(SeqsOf(node, acceptedOnly)) && result == SeqsOf(node, acceptedOnly)[j].NodesWithoutState)
+//@   loop 0 invariant [idx] LastBelow(sequences, threshold, len(sequences)) == LastBelow(sequences, threshold, i)
 //@   ensures [list] IsList(SeqsOf(node, acceptedOnly), threshold, result)
 //@   ensures [elems] forall j int :: 0 <= j && j < len(result) ==> result[j] != nil
 //@   loop 0 invariant 0 <= i && i <= len(sequences) && sequences == SeqsOf(node, acceptedOnly)
@@ -96,11 +104,14 @@ package kernel
 //@ rec CountSel(node *Node, l []*CNode, rem *CNode, ts uint64, n int) mathint =
 //@     n <= 0 ? 0 : CountSel(node, l, rem, ts, n - 1) + ((!Excluded(rem, l[n - 1]) && Ready(node, l[n - 1], ts)) ? 1 : 0)
 
-//@ -- IsThresholdAt(node, ts, final, t): t is THE certificate threshold at ts -- 1000 when no membership list is cached below ts, otherwise
-//@ -- Threshold(b) with b the count, over the (unique) list at ts, of the nodes that are Counted and are not the node RemovingAt(node, ts)
-//@ spec IsThresholdAt(node *Node, ts uint64, final bool, t mathint) bool = (NoList(node.nodeStateSequences, ts) && t == 1000) ||
-//@     (exists i int :: ListIdx(node.nodeStateSequences, ts, i) &&
-//@      t == Threshold(CountBase(node, node.nodeStateSequences[i].NodesWithoutState, RemovingAt(node, ts), ts, final, len(node.nodeStateSequences[i].NodesWithoutState))))
+//@ -- ThresholdAt(node, ts, final): THE certificate threshold at ts -- 1000 when no membership list is cached below ts, otherwise Threshold(b)
+//@ -- with b the count, over the list at ts, of the nodes that are Counted and are not the node RemovingAt(node, ts).
+//@ -- SelCountAt(node, ts): how many nodes of that list consensusNodes selects (Ready and not RemovingAt(node, ts)).
+//@ spec ListAt(node *Node, ts uint64) []*CNode = node.nodeStateSequences[ListAtIdx(node, ts)].NodesWithoutState
+//@ spec BaseAt(node *Node, ts uint64, final bool) mathint = ListAtIdx(node, ts) < 0 ? 0 : CountBase(node, ListAt(node, ts), RemovingAt(node, ts), ts, final, len(ListAt(node, ts)))
+//@ spec ThresholdAt(node *Node, ts uint64, final bool) mathint = Threshold(BaseAt(node, ts, final))
+//@ spec SelCountAt(node *Node, ts uint64) mathint = ListAtIdx(node, ts) < 0 ? 0 : CountSel(node, ListAt(node, ts), RemovingAt(node, ts), ts, len(ListAt(node, ts)))
+
 //@ reclimit CountBase
 //@ reclimit CountSel
 
@@ -113,12 +124,9 @@ package kernel
 //@   ensures [nonecounted] (NoList(node.nodeStateSequences, timestamp) || (exists i int :: ListIdx(node.nodeStateSequences, timestamp, i) &&
 //@       (forall k int :: 0 <= k && k < len(node.nodeStateSequences[i].NodesWithoutState) ==> !Counted(node, node.nodeStateSequences[i].NodesWithoutState[k], timestamp, final))))
 //@       ==> result == 1000
-//@   ensures [base] old(IsThresholdAt(node, timestamp, final, result))
+//@   ensures [base] result == old(ThresholdAt(node, timestamp, final))
 //@   hint return [total] consensusBase == CountBase(node, nodes, old(RemovingAt(node, timestamp)), timestamp, final, len(nodes))
-//@   hint return [witness] (NoList(node.nodeStateSequences, timestamp) && consensusBase == 0) || (exists i int :: ListIdx(node.nodeStateSequences, timestamp, i) &&
-//@       consensusBase == CountBase(node, node.nodeStateSequences[i].NodesWithoutState, old(RemovingAt(node, timestamp)), timestamp, final, len(node.nodeStateSequences[i].NodesWithoutState)))
-//@   ensures [value] result == 1000 || (result >= 5 && result <= 1152921504606846976)
-//@   hint return [threshold] old(IsThresholdAt(node, timestamp, final, Threshold(consensusBase)))
+//@   hint return [witness] consensusBase == old(BaseAt(node, timestamp, final))
 //@   loop 0 invariant [count] consensusBase == CountBase(node, nodes, removing, timestamp, final, rangeindex + 1)
 //@   loop 0 invariant [list] IsList(node.nodeStateSequences, timestamp, nodes)
 //@   hint at "nodes := node.NodesListWithoutState(timestamp, false)" [removing] removing == old(RemovingAt(node, timestamp))
@@ -137,9 +145,7 @@ package kernel
 //@   uses readsframe
 //@   requires chain != nil && NodeRep(chain.node)
 //@   modifies nothing
-//@   ensures [count] (NoList(chain.node.nodeStateSequences, timestamp) && len(result) == PledgerCount(chain, round)) ||
-//@       (exists i int :: ListIdx(chain.node.nodeStateSequences, timestamp, i) && len(result) == PledgerCount(chain, round) +
-//@        old(CountSel(chain.node, chain.node.nodeStateSequences[i].NodesWithoutState, RemovingAt(chain.node, timestamp), timestamp, len(chain.node.nodeStateSequences[i].NodesWithoutState))))
+//@   ensures [count] len(result) == PledgerCount(chain, round) + old(SelCountAt(chain.node, timestamp))
 //@   loop 0 invariant [count] len(participants) == old(CountSel(chain.node, nodes, RemovingAt(chain.node, timestamp), timestamp, rangeindex + 1))
 //@   ensures [len] (NoList(chain.node.nodeStateSequences, timestamp) && len(result) <= ((Pledging(chain) && round == 0) ? 1 : 0)) ||
 //@       (exists i int :: ListIdx(chain.node.nodeStateSequences, timestamp, i) &&
@@ -167,6 +173,7 @@ package kernel
 //@   property C10, C09
 //@   requires chain != nil && NodeRep(chain.node)
 //@   modifies nothing
+//@   ensures [count] len(result1) == PledgerCount(chain, round) + old(SelCountAt(chain.node, timestamp))
 //@   assumes [det] forall h, s mathint :: {KeyPrefix(h, s, result1, len(result1))} KeyPrefix(h, s, result1, len(result1)) == old(CKPrefix(chain, round, timestamp, h, s))
 //@   ensures [len] len(result0) == len(result1) &&
 //@       ((NoList(chain.node.nodeStateSequences, timestamp) && len(result1) <= ((Pledging(chain) && round == 0) ? 1 : 0)) ||
